@@ -35,6 +35,14 @@ def eval_fn(P, f, atoms, args=None, depth=0):
             return env[e[1]]
         if e[0] == 'call' and re.search(r'bool>?::(then|then_some)$', e[1]) and e[2]:
             return ev(e[2][0])          # presence of the produced Option
+        if e[0] == 'call' and re.search(r'ops::(Fn|FnMut|FnOnce)::call(_mut|_once)?$', e[1]) and e[2]:
+            # a predicate that was handed in as a closure: evaluate that closure on the same atoms
+            cl = atom(e[2][0])
+            if cl is None and strip(e[2][0])[0] == 'arg':
+                cl = args.get(strip(e[2][0])[1])
+            if isinstance(cl, tuple) and cl and cl[0] in ('closure', 'fnref') and cl[1] in P.fns:
+                return eval_fn(P, P.fns[cl[1]], atoms, None, depth + 1)
+            raise Undecided('call of an unknown closure')
         if e[0] == 'int':
             return bool(e[1]) if (len(e) > 2 and e[2] == 'bool') else e[1]
         if e[0] == 'arg' and e[1] in args:
@@ -199,7 +207,7 @@ def run(ctx):
             args = {}
             while e is not None and e[0] == 'call' and e[1] in P.fns and hops < 2:
                 g = P.fns[e[1]]
-                args = {i + 1: (bool(strip(a)[1]) if strip(a)[0] == 'int' else None) for i, a in enumerate(e[2])}
+                args = {i + 1: (bool(strip(a)[1]) if strip(a)[0] == 'int' else (strip(a) if strip(a)[0] in ('closure', 'fnref') else None)) for i, a in enumerate(e[2])}
                 args = {k: v for k, v in args.items() if v is not None}
                 f = g
                 e = strip(expand(g, g.exits()[0]['expr'])) if len(g.exits()) == 1 else None
